@@ -179,6 +179,8 @@ def alternatives(pat: re.Pattern, buf: SSeq, s: int, endpos=None, max_alts=MAX_A
     elems = buf.elems
     patkey = id(tree)
 
+    scoped = {"dotall": False}
+
     def inb(pos):
         r = inb_cache.get(pos)
         if r is None:
@@ -234,7 +236,7 @@ def alternatives(pat: re.Pattern, buf: SSeq, s: int, endpos=None, max_alts=MAX_A
             c = step(pos, cond, ("NL", av, env.icase, env.ascii), lambda e: z3.Not(env.lit_pred(av, e)))
             return k(pos + 1, c, groups) if c is not None else None
         if op is C.ANY:
-            if flags & re.DOTALL:
+            if (flags & re.DOTALL) or scoped["dotall"]:
                 c = step(pos, cond, ("ANY1",), lambda e: z3.BoolVal(True))
             else:
                 c = step(pos, cond, ("ANY",), lambda e: e != 10)
@@ -248,16 +250,27 @@ def alternatives(pat: re.Pattern, buf: SSeq, s: int, endpos=None, max_alts=MAX_A
             return None
         if op is C.SUBPATTERN:
             gid, addf, delf, sub = av
-            if addf or delf:
+            if delf or (addf & ~re.DOTALL):
                 raise Unsupported("inline flags")
+            outer = scoped["dotall"]
+            inner = outer or bool(addf & re.DOTALL)    # (?s:...) -- scoped DOTALL
 
             def k2(p, c, g):
                 if gid is not None:
                     g = dict(g)
                     g[gid] = (pos, p)
-                return k(p, c, g)
+                # the continuation runs outside the group: restore the outer flag around it
+                scoped["dotall"] = outer
+                try:
+                    return k(p, c, g)
+                finally:
+                    scoped["dotall"] = inner
 
-            return m_seq(list(sub), 0, pos, cond, groups, k2)
+            scoped["dotall"] = inner
+            try:
+                return m_seq(list(sub), 0, pos, cond, groups, k2)
+            finally:
+                scoped["dotall"] = outer
         if op in (C.MAX_REPEAT, C.MIN_REPEAT):
             lo, hi, sub = av
             sub = list(sub)
